@@ -15,3 +15,55 @@ let () =
                              (if e.shared <> [] then "\tfinding=D1" else ""))
           end) es;
       !bad)
+
+(* "a non-text end context", from the tokenizer specification alone: in a history on ONE set (one New, no
+   Clone, no t.New), a name whose only definition is static text (no action, no call) that leaves the HTML
+   tokenizer inside a tag, an attribute value, a comment or the body of a script / style / textarea /
+   title element (V.static_text_must_be_refused) must not execute successfully when it is the first execution
+   of the history (later ones are judged by the fresh-set oracle, which knows finding D1) *)
+let static_end_violation (f : string array) : string option =
+  try
+    let n = int_of_string f.(3) in
+    let ops = List.init n (fun k -> (f.(4 + 3 * k), f.(5 + 3 * k))) in
+    let kind w = if String.length w > 0 then w.[0] else '?' in
+    let news = List.length (List.filter (fun (w, _) -> kind w = 'N') ops) in
+    if news <> 1 || List.exists (fun (w, _) -> kind w = 'C' || kind w = 'S') ops then None
+    else begin
+      (* name -> static text of its definitions so far *)
+      let defs : (V.n list * V.n list option) list ref = ref [] in
+      let bad = ref None in
+      List.iteri (fun k (w, res) ->
+          match kind w with
+          | 'P' when res = "parseok" ->
+            (match String.split_on_char ':' w with
+             | _ :: _ :: rest ->
+               let body = String.concat ":" rest in
+               if String.length body > 1 && body.[0] = 'T' then
+                 List.iter (fun d ->
+                     match Drv_hist.def_of d with
+                     | (name, Some tree) ->
+                       let static = if List.for_all (function V.NText _ -> true | _ -> false) tree
+                         then Some (List.concat (List.map (function V.NText (_, t) -> t | _ -> []) tree)) else None in
+                       let static = if List.mem_assoc name !defs then None else static in   (* defined twice: not judged *)
+                       defs := (name, static) :: List.remove_assoc name !defs
+                     | _ -> ())
+                   (Drv_hist.parse_all (String.sub body 1 (String.length body - 1)))
+             | _ -> ())
+          | 'Y' when res = "exec" && !bad = None
+                     (* the first execution of the history only: what earlier executions leave behind is finding D1 *)
+                     && not (List.exists (fun (w', _) -> kind w' = 'X' || kind w' = 'Y') (List.filteri (fun j _ -> j < k) ops)) ->
+            (match String.split_on_char ':' w with
+             | [_; _; hexname] ->
+               (match List.assoc_opt (bytes_of_hex hexname) !defs with
+                | Some (Some text) when V.static_text_must_be_refused text ->
+                  bad := Some (Printf.sprintf "op%d:static_template_ending_in_a_non_text_context_was_executed" k)
+                | _ -> ())
+             | _ -> ())
+          | _ -> ()) ops;
+      !bad
+    end
+  with _ -> None
+
+let () =
+  let prev = Hashtbl.find handlers "hist05" in
+  reg "hist05" (fun f -> match static_end_violation f with Some c -> specfail f.(1) c | None -> prev f)
